@@ -219,6 +219,9 @@ type seqModel struct {
 	// implHeld: ids the implementation holds (an operation of unspecified validity that it accepted
 	// is held like any other while its references do not resolve)
 	implHeld map[uint64]bool
+	// maybeHeld: held REPLACEs whose target has gone and whose references still do not resolve, dropped here on
+	// a retry because the tree looks at the target first; a server that looks at the references first keeps them
+	maybeHeld map[uint64]*opRec
 }
 
 func (q *seqModel) note(rec *opRec, en *Entry) {
@@ -334,6 +337,12 @@ func (q *seqModel) cascade() {
 				// fails on retry: a REPLACE whose target has gone is refused before its references are even looked
 				// at (so also while they still do not resolve)
 				if en != nil && (q.m.Resolvable(en) || why == "replace of missing entry") {
+					if !q.m.Resolvable(en) {
+						if q.maybeHeld == nil {
+							q.maybeHeld = map[uint64]*opRec{}
+						}
+						q.maybeHeld[id] = rec
+					}
 					delete(q.held, id)
 					changed = true
 				}
@@ -401,6 +410,11 @@ func (e *env) matchPrefix(items []cutItem, minK int, what string, last *[2]uint6
 			}
 		}
 		if k >= minK && okSnap && q.max == implMax && q.sameHeld(implHeld) {
+			for id, rec := range q.maybeHeld {
+				if implHeld[id] {
+					q.held[id] = rec // the server kept it: it is still held
+				}
+			}
 			e.model = q.m
 			e.maxElec = q.max
 			for _, it := range items[:k] {
@@ -516,7 +530,7 @@ func (q *seqModel) sameHeld(b map[uint64]bool) bool {
 		return false
 	}
 	for k := range b {
-		if _, ok := q.held[k]; !ok {
+		if _, ok := q.held[k]; !ok && q.maybeHeld[k] == nil {
 			return false
 		}
 	}
